@@ -432,6 +432,8 @@ def _ref_set_path(rec, path, isidx, val):
         raise Routing('index into nothing')
       return [_ref_set_path(_NOTHING, path[1:], isidx[1:], val)]
     return {s: _ref_set_path(_NOTHING, path[1:], isidx[1:], val)}
+  if isinstance(rec, dict) and ix:
+    raise Undefined('an Index into a mapping')
   if isinstance(rec, dict) and not ix:
     new = dict(rec)
     new[s] = _ref_set_path(rec.get(s, _NOTHING), path[1:], isidx[1:], val)
